@@ -1036,3 +1036,32 @@ func FirstUseStress(seed int64, rounds int) []Problem {
 	}
 	return problems
 }
+
+// TimeLocalFirstUse: in a fresh process, events stamped with the local time are filtered by encrypt.Filter while another
+// goroutine uses the local time zone for the first time (the gated filter's Payload.ComposeFrom formats a time). Run
+// under the race detector, in a process of its own: time.Local is initialised once per process.
+func TimeLocalFirstUse() []Problem {
+	var problems []Problem
+	f := &encrypt.Filter{Wrapper: encrep.NewWrapper("timeloc")}
+	type pl struct {
+		S string `class:"secret"`
+		T time.Time
+	}
+	together(2, func(k int) {
+		if k == 1 {
+			gp := &gated.Payload{ID: "x", Flush: true}
+			gp.ComposeFrom([]*eventlogger.Event{{Type: "t", CreatedAt: time.Now(), Payload: &gated.Payload{ID: "x", Detail: map[string]interface{}{"k": "v"}}}})
+			return
+		}
+		for i := 0; i < 300; i++ {
+			now := time.Now()
+			e := &eventlogger.Event{Type: "t", CreatedAt: now, Payload: &pl{"secret", now}, Formatted: map[string][]byte{}}
+			out, err := f.Process(context.Background(), e)
+			if err != nil || out == nil || !out.CreatedAt.Equal(now) || out.Payload.(*pl).S != "[REDACTED]" || !out.Payload.(*pl).T.Equal(now) {
+				problems = append(problems, Problem{"C19", fmt.Sprintf("encrypt.Filter on an event stamped with local time: err=%v", err)})
+				return
+			}
+		}
+	})
+	return problems
+}
